@@ -226,16 +226,16 @@ func HarnessC11RoundTrip(afc, flags, level int) {
 	mx.WriteData(&MuxerData{PID: 0x100, PES: &PESData{Header: &PESHeader{StreamID: 0xc0}, Data: []byte{1, 2, 3, 4, 5}}})
 	pos := len(sink.buf)
 	vassert("C11.rt.prior", pos == 3*188)
-	// ... and a packet it had to reject (payload of 184 bytes beside a one-byte adaptation field) left nothing behind
-	bad := &Packet{Header: PacketHeader{PID: 0x200, HasAdaptationField: true, HasPayload: true}, AdaptationField: &PacketAdaptationField{IsOneByteStuffing: true}, Payload: make([]byte, 184)}
-	nb, errb := mx.WritePacket(bad)
-	vassert("C11.rt.rejected", errb != nil && nb == 0 && len(sink.buf) == pos)
 	n, err := mx.WritePacket(p)
 	vassert("C11.rt.write.err", err == nil)
 	vassert("C11.rt.n", n == 188)
-	vassert("C11.rt.bytes", vBytesEq(sink.buf[pos:], x))
+	vassert("C11.rt.bytes", len(sink.buf) == pos+188 && vBytesEq(sink.buf[pos:], x))
+	// ... then a packet it has to reject (payload of 184 bytes beside a one-byte adaptation field) leaves nothing behind
+	bad := &Packet{Header: PacketHeader{PID: 0x200, HasAdaptationField: true, HasPayload: true}, AdaptationField: &PacketAdaptationField{IsOneByteStuffing: true}, Payload: make([]byte, 184)}
+	nb, errb := mx.WritePacket(bad)
+	vassert("C11.rt.rejected", errb != nil && nb == 0 && len(sink.buf) == pos+188)
 	n, err = mx.WritePacket(p)
-	vassert("C11.rt.again", err == nil && n == 188 && vBytesEq(sink.buf[pos+188:], x))
+	vassert("C11.rt.again", err == nil && n == 188 && len(sink.buf) == pos+376 && vBytesEq(sink.buf[pos+188:], x))
 	vreach("C11.rt.end")
 }
 
